@@ -3,7 +3,7 @@ harness bin frontends (statement vocabulary shared with C24: Routing.tla)."""
 import json, os
 from vf.core import ToolError
 
-WR = '{"none","CREATE","MERGE","SET","SETLBL","REMOVE","DELETE","DETACH","FOREACH","CRINDEX","CRCONS","DRINDEX","CRVEC","CRHIER","DRHIER"}'
+WR = '{"none","CREATE","MERGE","SET","SETLBL","REMOVE","DELETE","DETACH","FOREACH","SETW","CREATEW","CRINDEX","CRCONS","DRINDEX","CRVEC","CRHIER","DRHIER"}'
 
 GEN = """SPECIFICATION Spec
 CONSTANTS Mode = "{mode}"
@@ -59,7 +59,7 @@ def run(ctx):
     # the exhaustive product: read prefixes x write/DDL clause x closing RETURN x keyword case x separator
     cases = gen("product", maxpre=1 if q else 2)
     # EXPLAIN / PROFILE in front
-    WQ = '{"none","CREATE","SET","REMOVE","DETACH","CRINDEX","DRINDEX"}'
+    WQ = '{"none","CREATE","SET","SETW","CREATEW","REMOVE","DETACH","CRINDEX","DRINDEX"}'
     cases += gen("explain", exs='{"EXPLAIN","PROFILE"}', maxpre=1, writes=WQ if q else WR, cases='{"upper"}' if q else '{"upper","lower"}',
                  seps='{"sp","nl"}' if q else '{"sp","tab","nl"}')
     # write keywords that are not clauses: string literals (blank- and newline-delimited), a UNION branch
